@@ -146,7 +146,7 @@ func genReq(t *rapid.T) Req {
 			q.Table = nil
 			defects = append(defects, defect{"missing-table", codes.InvalidArgument})
 		} else if want("unknowntable") {
-			q.Table = []byte("nope")
+			q.Table = unknownTable(t, table)
 			defects = append(defects, defect{"unknown-table", codes.NotFound})
 		}
 		if want("nokey") {
@@ -169,7 +169,7 @@ func genReq(t *rapid.T) Req {
 			q.Table = nil
 			defects = append(defects, defect{"missing-table", codes.InvalidArgument})
 		} else if want("unknowntable") {
-			q.Table = []byte("nope")
+			q.Table = unknownTable(t, table)
 			defects = append(defects, defect{"unknown-table", codes.NotFound})
 		}
 		if want("nokey") {
@@ -193,7 +193,7 @@ func genReq(t *rapid.T) Req {
 			q.Table = nil
 			defects = append(defects, defect{"missing-table", codes.InvalidArgument})
 		} else if want("unknowntable") {
-			q.Table = []byte("nope")
+			q.Table = unknownTable(t, table)
 			defects = append(defects, defect{"unknown-table", codes.NotFound})
 		}
 		if want("nokey") {
@@ -241,7 +241,7 @@ func genReq(t *rapid.T) Req {
 			q.Table = nil
 			defects = append(defects, defect{"missing-table", codes.InvalidArgument})
 		} else if want("unknowntable") {
-			q.Table = []byte("nope")
+			q.Table = unknownTable(t, table)
 			defects = append(defects, defect{"unknown-table", codes.NotFound})
 		}
 		// defects nested in a branch: the limits hold on every path that can create a record
@@ -332,6 +332,13 @@ func genReq(t *rapid.T) Req {
 		r.Defects = append(r.Defects, d.name)
 	}
 	return r
+}
+
+// unknownTable: a table that was never created - an unrelated name, or a name that merely RESEMBLES an existing one (path-like
+// decorations, case, whitespace, a prefix / an extension of it).  The catalogue is keyed by the exact name.
+func unknownTable(t *rapid.T, existing []byte) []byte {
+	e := string(existing)
+	return []byte(rapid.SampledFrom([]string{"nope", "nope", e + "/", e + "/.", "./" + e, "/" + e, "x/../" + e, "../tables/" + e, e + "//", strings.ToUpper(e), e + " ", " " + e, e + "x", e[:max(1, len(e)-1)] + "?"}).Draw(t, "unknownname"))
 }
 
 func genCase(t *rapid.T) Case {
